@@ -128,6 +128,7 @@ pub static RET_KINDS: &[RetKindMeta] = &[
 ];
 
 pub static TRAITS: &[TraitMeta] = &[TraitMeta {
+    ord: usize::MAX,
     name: "TrAsync",
     quick: true,
     isolate: false,
